@@ -1568,7 +1568,7 @@ class Engine:
         k = z3.Const('_ck', smt.Key)
         cp = smt.CP(d, c)
         ax = [z3.ForAll([d, c], cp != d, patterns=[cp])]
-        for f in (smt.N, smt.IDX, smt.LEN, smt.KEYS, smt.ITEMS, smt.ORD, smt.IREF, smt.IEXC):
+        for f in (smt.N, smt.IDX, smt.LEN, smt.KEYS, smt.ITEMS, smt.ORD, smt.IREF, smt.IEXC, smt.KEYS_UNIMPL):
             ax.append(z3.ForAll([d, c], f(cp) == f(d), patterns=[f(cp)]))
         for f in (smt.RAISES, smt.VAL, smt.EXC, smt.KEY):
             ax.append(z3.ForAll([d, c, i], f(cp, i) == f(d, i), patterns=[f(cp, i)]))
